@@ -187,6 +187,109 @@ Qed.
 End Events.
 
 (* ------------------------------------------------------------------------------------------ *)
+(* numbered RPC calls: retried errors are invisible; without context.Canceled and with at most
+   MaxRetryCountBlockHashMismatch hash mismatches, getEventsByBlockRangeWithRetry returns what the pure grouping returns *)
+
+Definition le_calls (c' c : list cres) : Prop :=
+  (forall r, In r c' -> In r c) /\ (mismatches c' <= mismatches c)%nat.
+Lemma le_calls_refl c : le_calls c c.
+Proof. split; [auto|lia]. Qed.
+Lemma le_calls_trans c1 c2 c3 : le_calls c1 c2 -> le_calls c2 c3 -> le_calls c1 c3.
+Proof. intros [H1 H2] [H3 H4]. split; [auto|lia]. Qed.
+Lemma le_calls_cons r t : le_calls t (r :: t).
+Proof. split; [intros x Hx; right; exact Hx|]. destruct r; cbn [mismatches]; lia. Qed.
+Lemma calls_ok_le c c' : calls_ok c -> le_calls c' c -> calls_ok c'.
+Proof. intros [H1 H2] [H3 H4]. split; [intros H; apply H1, H3, H|lia]. Qed.
+
+Lemma filter_logs_call_ok c : ~ In RCanceled c -> exists c', filter_logs_call c = (true, c') /\ le_calls c' c.
+Proof.
+  induction c as [|r t IH]; intros Hnc; cbn [filter_logs_call].
+  - exists []. split; [reflexivity|apply le_calls_refl].
+  - assert (Hnt : ~ In RCanceled t) by (intros H; apply Hnc; right; exact H).
+    destruct r; cbn [retried];
+      try (destruct (IH Hnt) as (c' & -> & Hle); exists c'; split; [reflexivity|];
+           eapply le_calls_trans; [exact Hle|apply le_calls_cons]);
+      try (exists t; split; [reflexivity|apply le_calls_cons]).
+    exfalso. apply Hnc. left. reflexivity.
+Qed.
+
+Lemma header_call_ok c : ~ In RCanceled c ->
+  exists h c', header_call c = (h, c') /\ (forall r, In r c' -> In r c) /\
+    ((h = HOk /\ (mismatches c' <= mismatches c)%nat) \/ (h = HMismatch /\ (S (mismatches c') <= mismatches c)%nat)).
+Proof.
+  induction c as [|r t IH]; intros Hnc; cbn [header_call].
+  - exists HOk, []. split; [reflexivity|]. split; [auto|]. left. split; [reflexivity|lia].
+  - assert (Hnt : ~ In RCanceled t) by (intros H; apply Hnc; right; exact H).
+    destruct r; cbn [retried].
+    + exists HOk, t. split; [reflexivity|]. split; [intros x Hx; right; exact Hx|]. left. cbn [mismatches]. split; [reflexivity|lia].
+    + destruct (IH Hnt) as (h & c' & -> & Hs & Hm). exists h, c'. split; [reflexivity|].
+      split; [intros x Hx; right; auto|]. cbn [mismatches]. exact Hm.
+    + destruct (IH Hnt) as (h & c' & -> & Hs & Hm). exists h, c'. split; [reflexivity|].
+      split; [intros x Hx; right; auto|]. cbn [mismatches]. exact Hm.
+    + destruct (IH Hnt) as (h & c' & -> & Hs & Hm). exists h, c'. split; [reflexivity|].
+      split; [intros x Hx; right; auto|]. cbn [mismatches]. exact Hm.
+    + exfalso. apply Hnc. left. reflexivity.
+    + exists HMismatch, t. split; [reflexivity|]. split; [intros x Hx; right; exact Hx|]. right. cbn [mismatches]. split; [reflexivity|lia].
+Qed.
+
+Definition retry_ok (c' c : list cres) : Prop :=
+  (forall r, In r c' -> In r c) /\ (S (mismatches c') <= mismatches c)%nat.
+
+Lemma group_rpc_from_ok logs : forall cur c, ~ In RCanceled c ->
+  (exists c', group_rpc_from cur logs c = GDone (group_from cur logs) c' /\ le_calls c' c) \/
+  (exists c', group_rpc_from cur logs c = GRetry c' /\ retry_ok c' c).
+Proof.
+  induction logs as [|kl t IH]; intros cur c Hnc; cbn [group_rpc_from group_from].
+  - left. exists c. split; [reflexivity|apply le_calls_refl].
+  - destruct (fst cur <? fst kl).
+    + destruct (header_call_ok c Hnc) as (h & c1 & -> & Hs & [[-> Hm]|[-> Hm]]).
+      * assert (Hnc1 : ~ In RCanceled c1) by (intros H; apply Hnc, Hs, H).
+        destruct (IH (fst kl, [ev_of kl]) c1 Hnc1) as [(c' & -> & [Hs' Hm'])|(c' & -> & [Hs' Hm'])].
+        -- left. exists c'. split; [reflexivity|]. split; [auto|lia].
+        -- right. exists c'. split; [reflexivity|]. split; [auto|lia].
+      * right. exists c1. split; [reflexivity|]. split; assumption.
+    + apply IH. exact Hnc.
+Qed.
+
+Lemma group_rpc_ok logs c : ~ In RCanceled c ->
+  (exists c', group_rpc logs c = GDone (group logs) c' /\ le_calls c' c) \/
+  (exists c', group_rpc logs c = GRetry c' /\ retry_ok c' c).
+Proof.
+  intros Hnc. destruct logs as [|kl t]; cbn [group_rpc group].
+  - left. exists c. split; [reflexivity|apply le_calls_refl].
+  - destruct (header_call_ok c Hnc) as (h & c1 & -> & Hs & [[-> Hm]|[-> Hm]]).
+    + assert (Hnc1 : ~ In RCanceled c1) by (intros H; apply Hnc, Hs, H).
+      destruct (group_rpc_from_ok t (fst kl, [ev_of kl]) c1 Hnc1) as [(c' & -> & [Hs' Hm'])|(c' & -> & [Hs' Hm'])].
+      * left. exists c'. split; [reflexivity|]. split; [auto|lia].
+      * right. exists c'. split; [reflexivity|]. split; [auto|lia].
+    + right. exists c1. split; [reflexivity|]. split; assumption.
+Qed.
+
+(* a retry restarts the range from scratch: whatever the (retried) failures and however many (<= budget) hash
+   mismatches, the result is the result of the pure function, once *)
+Theorem events_rpc_ok cfg ch a b : forall budget c, ~ In RCanceled c -> (mismatches c <= budget)%nat ->
+  exists c' n, events_rpc budget cfg ch a b c = (get_events_by_block_range cfg ch a b, c', n) /\ le_calls c' c.
+Proof.
+  induction budget as [|bd IH]; intros c Hnc Hm; cbn [events_rpc];
+    destruct (filter_logs_call_ok c Hnc) as (c1 & -> & [Hs1 Hm1]);
+    assert (Hnc1 : ~ In RCanceled c1) by (intros H; apply Hnc, Hs1, H);
+    destruct (group_rpc_ok (get_logs cfg ch a b) c1 Hnc1) as [(c2 & -> & [Hs2 Hm2])|(c2 & -> & [Hs2 Hm2])].
+  - exists c2, 1%nat. split; [reflexivity|]. split; [auto|lia].
+  - exfalso. lia.
+  - exists c2, 1%nat. split; [reflexivity|]. split; [auto|lia].
+  - assert (Hnc2 : ~ In RCanceled c2) by (intros H; apply Hnc1, Hs2, H).
+    destruct (IH c2 Hnc2 ltac:(lia)) as (c3 & n & -> & [Hs3 Hm3]).
+    exists c3, (1 + n)%nat. split; [reflexivity|]. split; [auto|lia].
+Qed.
+
+Lemma report_empty_ok cfg lf n c : ~ In RCanceled c ->
+  exists c', report_empty cfg lf n c = ([empty_block cfg lf n], c') /\ le_calls c' c.
+Proof.
+  intros Hnc. unfold report_empty.
+  destruct (header_call_ok c Hnc) as (h & c1 & -> & Hs & [[-> Hm]|[-> Hm]]); exists c1; (split; [reflexivity|]); split; auto; lia.
+Qed.
+
+(* ------------------------------------------------------------------------------------------ *)
 (* the loop invariant *)
 
 Section Invariant.
@@ -217,8 +320,9 @@ Record Core (r : nat) (from to last : N) (acc : list dblock) : Prop := {
 }.
 
 Definition Inv (r : nat) (s : dl_state) (acc : list dblock) : Prop :=
+  calls_ok (s_calls s) /\
   match s_phase s with
-  | PInit => s = dl_init from0 /\ acc = []
+  | PInit => s_from s = from0 /\ acc = []
   | PWait => Core r (s_from s) (s_to s) (s_last s) acc
   | PFin => Core r (s_from s) (s_to s) (s_last s) acc /\ s_from s <= s_last s
   end.
@@ -226,10 +330,13 @@ Definition Inv (r : nat) (s : dl_state) (acc : list dblock) : Prop :=
 Lemma Core_mono r from to last acc : Core (S r) from to last acc -> Core r from to last acc.
 Proof. intros [H1 H2 H3 H4 H5 H6 H7 H8 H9]. constructor; try assumption. lia. Qed.
 
-Lemma loop_top_inv r from to last reach acc :
-  Core r from to last acc -> Inv r (loop_top from to last reach) acc.
+Lemma loop_top_calls f t l rc c : s_calls (loop_top f t l rc c) = c.
+Proof. unfold loop_top. destruct ((l <? f) || (rc && (l <=? t))); reflexivity. Qed.
+
+Lemma loop_top_inv r from to last reach c acc :
+  Core r from to last acc -> calls_ok c -> Inv r (loop_top from to last reach c) acc.
 Proof.
-  intros HC. unfold loop_top, Inv.
+  intros HC Hc. unfold Inv. rewrite loop_top_calls. split; [exact Hc|]. unfold loop_top.
   destruct (N.ltb_spec last from) as [Hlt|Hge]; cbn [orb].
   - cbn [s_phase s_from s_to s_last]. exact HC.
   - destruct (reach && (last <=? to)); cbn [s_phase s_from s_to s_last]; [exact HC|].
@@ -242,15 +349,67 @@ Lemma map_blk_mk lf blocks : map blk (map (mk_block cfg lf) blocks) = blocks.
 Proof. rewrite map_map. rewrite <- (map_id blocks) at 2. apply map_ext. intros [k e]. reflexivity. Qed.
 
 (* the loop body after a successful GetLastFinalizedBlock *)
+(* the loop body when every numbered RPC call eventually succeeds: new (fromBlock, toBlock, reachTop) and deliveries *)
+Definition dl_body0 (from to last fin : N) : (N * N * bool) * list dblock :=
+  let lf := N.min last fin in
+  let reach := last <=? to in
+  let req := if reach then last else to in
+  let blocks := get_events_by_block_range cfg ch from req in
+  if req <=? lf then
+    let extra := match blocks with
+                 | [] => [empty_block cfg lf req]
+                 | _ => if last_num blocks <? req then [empty_block cfg lf req] else []
+                 end in
+    let from' := u64 (req + 1) in
+    ((from', u64 (from' + chunk), reach), map (mk_block cfg lf) blocks ++ extra)
+  else match blocks with
+       | [] => if from <=? lf then
+                 let from' := u64 (lf + 1) in
+                 ((from', u64 (from' + chunk), reach), [empty_block cfg lf lf])
+               else ((from, u64 (to + chunk), reach), [])
+       | _ => let from' := u64 (last_num blocks + 1) in
+              ((from', u64 (from' + chunk), reach), map (mk_block cfg lf) blocks)
+       end.
+
+Lemma dl_body_pure from to last fin c : calls_ok c ->
+  exists c', le_calls c' c /\
+    dl_body cfg ch from to last fin c =
+    (loop_top (fst (fst (fst (dl_body0 from to last fin)))) (snd (fst (fst (dl_body0 from to last fin)))) last
+              (snd (fst (dl_body0 from to last fin))) c',
+     snd (dl_body0 from to last fin)).
+Proof.
+  intros [Hnc Hm]. unfold dl_body, dl_body0.
+  destruct (events_rpc_ok cfg ch from (if last <=? to then last else to) max_retry_hash_mismatch c Hnc Hm)
+    as (c1 & n & -> & Hle1).
+  assert (Hnc1 : ~ In RCanceled c1) by (intros H; apply Hnc, (proj1 Hle1), H).
+  set (blocks := get_events_by_block_range cfg ch from (if last <=? to then last else to)).
+  set (req := if last <=? to then last else to).
+  set (lf := N.min last fin).
+  destruct (req <=? lf).
+  - destruct blocks as [|b0 bl] eqn:Eb.
+    + destruct (report_empty_ok cfg lf req c1 Hnc1) as (c2 & -> & Hle2).
+      exists c2. split; [eapply le_calls_trans; eassumption|reflexivity].
+    + destruct (last_num (b0 :: bl) <? req).
+      * destruct (report_empty_ok cfg lf req c1 Hnc1) as (c2 & -> & Hle2).
+        exists c2. split; [eapply le_calls_trans; eassumption|reflexivity].
+      * exists c1. split; [exact Hle1|reflexivity].
+  - destruct blocks as [|b0 bl] eqn:Eb.
+    + destruct (from <=? lf).
+      * destruct (report_empty_ok cfg lf lf c1 Hnc1) as (c2 & -> & Hle2).
+        exists c2. split; [eapply le_calls_trans; eassumption|reflexivity].
+      * exists c1. split; [exact Hle1|reflexivity].
+    + exists c1. split; [exact Hle1|reflexivity].
+Qed.
+
 Lemma body_shape r from to last fin acc :
   Core (S r) from to last acc -> from <= last ->
   B + 1 + (N.of_nat r + 1) * chunk <= LIM ->
   exists from' to' reach',
-    fst (dl_body cfg ch from to last fin) = loop_top from' to' last reach' /\
-    Core r from' to' last (acc ++ snd (dl_body cfg ch from to last fin)) /\
+    fst (dl_body0 from to last fin) = (from', to', reach') /\
+    Core r from' to' last (acc ++ snd (dl_body0 from to last fin)) /\
     from <= from' /\ (from <= fin -> from < from').
 Proof.
-  intros [H1 H2 H3 H4 H5 H6 H7 H8 H9] Hfl Hbud. unfold dl_body.
+  intros [H1 H2 H3 H4 H5 H6 H7 H8 H9] Hfl Hbud. unfold dl_body0.
   set (lf := N.min last fin).
   set (reach := last <=? to).
   set (req := if reach then last else to).
@@ -375,47 +534,49 @@ Proof.
         apply Hmkin in Hd. split; [tauto|lia].
 Qed.
 
-Lemma body_preserves r from to last fin acc :
-  Core (S r) from to last acc -> from <= last ->
+Lemma body_preserves r from to last fin c acc :
+  Core (S r) from to last acc -> from <= last -> calls_ok c ->
   B + 1 + (N.of_nat r + 1) * chunk <= LIM ->
-  Inv r (fst (dl_body cfg ch from to last fin)) (acc ++ snd (dl_body cfg ch from to last fin)).
+  Inv r (fst (dl_body cfg ch from to last fin c)) (acc ++ snd (dl_body cfg ch from to last fin c)).
 Proof.
-  intros HC Hfl Hbud. destruct (body_shape r from to last fin acc HC Hfl Hbud) as (f' & t' & rc & -> & HC' & _).
-  apply loop_top_inv. exact HC'.
+  intros HC Hfl Hc Hbud. destruct (dl_body_pure from to last fin c Hc) as (c' & Hle & ->). cbn [fst snd].
+  destruct (body_shape r from to last fin acc HC Hfl Hbud) as (f' & t' & rc & -> & HC' & _). cbn [fst snd].
+  apply loop_top_inv; [exact HC'|eapply calls_ok_le; eassumption].
 Qed.
 
 Theorem step_preserves r s t acc :
   Inv (S r) s acc -> tick_ok t -> B + 1 + (N.of_nat r + 1) * chunk <= LIM ->
   Inv r (fst (dl_step cfg ch s t)) (acc ++ snd (dl_step cfg ch s t)).
 Proof.
-  intros HI Hok Hbud. unfold Inv in HI. unfold dl_step.
+  intros [Hc HI] Hok Hbud. unfold dl_step.
   assert (Hbig : B + 1 + chunk <= LIM) by lia.
   destruct (s_phase s) eqn:Eph.
   - (* PInit: the first WaitForNewBlocks *)
-    destruct HI as [-> ->]. cbn [dl_init s_from s_to s_last].
+    destruct HI as [Hf ->].
     destruct (t_err t) eqn:Eerr; cbn [orb fst snd].
-    { unfold Inv. cbn [dl_init s_phase]. split; reflexivity. }
+    { unfold Inv. rewrite Eph. split; [exact Hc|]. split; [exact Hf|reflexivity]. }
     destruct (N.ltb_spec 0 (t_tip t)) as [Hpos|Hz]; cbn [negb fst snd app].
-    2:{ unfold Inv. cbn [dl_init s_phase]. split; reflexivity. }
-    destruct (Hok Eerr) as [HB Hf0]. specialize (Hf0 Hpos).
+    2:{ unfold Inv. rewrite Eph. split; [exact Hc|]. split; [exact Hf|reflexivity]. }
+    destruct (Hok Eerr) as [HB Hf0]. specialize (Hf0 Hpos). rewrite Hf.
     rewrite (u64_small (from0 + chunk)) by lia.
-    apply loop_top_inv. constructor; try lia; try (intros b []); try (intros k Hk; lia); constructor.
+    apply loop_top_inv; [|exact Hc].
+    constructor; try lia; try (intros b []); try (intros k Hk; lia); constructor.
   - (* PWait: polling until the tip is above lastBlock *)
     destruct (t_err t) eqn:Eerr; cbn [orb fst snd].
-    { rewrite app_nil_r. unfold Inv. rewrite Eph. apply Core_mono. exact HI. }
+    { rewrite app_nil_r. unfold Inv. rewrite Eph. split; [exact Hc|]. apply Core_mono. exact HI. }
     destruct (N.ltb_spec (s_last s) (t_tip t)) as [Hgt|Hle]; cbn [negb fst snd].
-    2:{ rewrite app_nil_r. unfold Inv. rewrite Eph. apply Core_mono. exact HI. }
+    2:{ rewrite app_nil_r. unfold Inv. rewrite Eph. split; [exact Hc|]. apply Core_mono. exact HI. }
     destruct (Hok Eerr) as [HB _].
     destruct HI as [H1 H2 H3 H4 H5 H6 H7 H8 H9].
     (* the branch `fromBlock-toBlock < chunk` is dead: the uint64 difference is 2^64 - (to-from) >= chunk *)
     assert (Hdead : u64_sub (s_from s) (s_to s) <? chunk = false).
     { apply N.ltb_ge. unfold u64_sub. rewrite N.mod_small by lia. lia. }
-    rewrite Hdead, app_nil_r. unfold Inv. cbn [s_phase s_from s_to s_last].
-    split; [|lia]. constructor; try assumption; lia.
+    rewrite Hdead, app_nil_r. unfold Inv. cbn [s_phase s_from s_to s_last s_calls].
+    split; [exact Hc|]. split; [|lia]. constructor; try assumption; lia.
   - (* PFin *)
     destruct HI as [HC Hfl].
     destruct (t_err t) eqn:Eerr; cbn [fst snd].
-    { rewrite app_nil_r. apply loop_top_inv, Core_mono, HC. }
+    { rewrite app_nil_r. apply loop_top_inv; [apply Core_mono, HC|exact Hc]. }
     apply body_preserves; assumption.
 Qed.
 
@@ -443,15 +604,15 @@ Proof.
 Qed.
 
 (* ---- progress ---- *)
-Lemma loop_top_from f t l rc : s_from (loop_top f t l rc) = f.
+Lemma loop_top_from f t l rc c : s_from (loop_top f t l rc c) = f.
 Proof. unfold loop_top. destruct ((l <? f) || (rc && (l <=? t))); reflexivity. Qed.
-Lemma loop_top_last f t l rc : s_last (loop_top f t l rc) = l.
+Lemma loop_top_last f t l rc c : s_last (loop_top f t l rc c) = l.
 Proof. unfold loop_top. destruct ((l <? f) || (rc && (l <=? t))); reflexivity. Qed.
 
 Definition cost (p : phase) : N := match p with PInit => 3 | PWait => 2 | PFin => 1 end.
 Definition mu (k : N) (s : dl_state) : N := 2 * (k + 1 - s_from s) + cost (s_phase s).
 
-Lemma loop_top_cost f t l rc : cost (s_phase (loop_top f t l rc)) <= 2.
+Lemma loop_top_cost f t l rc c : cost (s_phase (loop_top f t l rc c)) <= 2.
 Proof. unfold loop_top. destruct ((l <? f) || (rc && (l <=? t))); cbn [s_phase cost]; lia. Qed.
 
 (* the cursor never moves backwards; a successful poll that shows a higher tip and a finalized block >= k
@@ -463,15 +624,15 @@ Lemma step_progress r s t acc k :
      s_last (fst (dl_step cfg ch s t)) <= t_tip t /\
      (s_from s <= k -> mu k (fst (dl_step cfg ch s t)) < mu k s)).
 Proof.
-  intros HI Hok Hbud. unfold Inv in HI. unfold dl_step, mu.
+  intros [Hc HI] Hok Hbud. unfold dl_step, mu.
   destruct (s_phase s) eqn:Eph.
-  - destruct HI as [-> ->]. cbn [dl_init s_from s_to s_last s_phase] in *.
-    destruct (t_err t) eqn:Eerr; cbn [orb fst snd dl_init s_from].
+  - destruct HI as [Hf ->].
+    destruct (t_err t) eqn:Eerr; cbn [orb fst snd].
     { split; [lia|discriminate]. }
-    destruct (N.ltb_spec 0 (t_tip t)) as [Hpos|Hz]; cbn [negb fst snd dl_init s_from].
+    destruct (N.ltb_spec 0 (t_tip t)) as [Hpos|Hz]; cbn [negb fst snd].
     2:{ split; [lia|]. intros _ Hl. lia. }
     rewrite loop_top_from, loop_top_last. split; [lia|]. intros _ _ _. split; [lia|]. intros _.
-    pose proof (loop_top_cost from0 (u64 (from0 + chunk)) (t_tip t) false). cbn [cost]. lia.
+    pose proof (loop_top_cost (s_from s) (u64 (s_from s + chunk)) (t_tip t) false (s_calls s)). cbn [cost]. lia.
   - destruct (t_err t) eqn:Eerr; cbn [orb fst snd].
     { split; [lia|discriminate]. }
     destruct (N.ltb_spec (s_last s) (t_tip t)) as [Hgt|Hle]; cbn [negb fst snd s_from s_last s_phase].
@@ -480,10 +641,11 @@ Proof.
   - destruct HI as [HC Hfl].
     destruct (t_err t) eqn:Eerr; cbn [fst snd].
     { rewrite loop_top_from. split; [lia|discriminate]. }
+    destruct (dl_body_pure (s_from s) (s_to s) (s_last s) (t_fin t) (s_calls s) Hc) as (c' & _ & ->). cbn [fst snd].
     destruct (body_shape r (s_from s) (s_to s) (s_last s) (t_fin t) acc HC Hfl Hbud)
-      as (f' & t' & rc & -> & _ & Hmono & Hstrict).
+      as (f' & t' & rc & -> & _ & Hmono & Hstrict). cbn [fst snd].
     rewrite loop_top_from, loop_top_last. split; [exact Hmono|]. intros _ Hl Hk. split; [lia|]. intros Hfk.
-    pose proof (loop_top_cost f' t' (s_last s) rc). specialize (Hstrict ltac:(lia)). cbn [cost]. lia.
+    pose proof (loop_top_cost f' t' (s_last s) rc c'). specialize (Hstrict ltac:(lia)). cbn [cost]. lia.
 Qed.
 
 Lemma rising_weaken k ticks : forall L L', L' <= L -> rising k L ticks -> rising k L' ticks.
@@ -519,8 +681,8 @@ Lemma Inv_facts r s acc : Inv r s acc ->
   (forall k, from0 <= k < s_from s -> wev k <> [] -> In (k, wev k) (map blk acc)) /\
   from0 <= s_from s /\ (s_phase s <> PInit -> s_from s <= s_last s + 1 /\ s_last s <= B).
 Proof.
-  unfold Inv. destruct (s_phase s) eqn:E.
-  - intros [-> ->]. cbn [dl_init s_from map]. split; [constructor|]. split; [intros b []|].
+  unfold Inv. intros [_ H]. revert H. destruct (s_phase s) eqn:E.
+  - intros [-> ->]. cbn [map]. split; [constructor|]. split; [intros b []|].
     split; [intros k Hk; lia|]. split; [lia|congruence].
   - intros [H1 H2 H3 H4 H5 H6 H7 H8 H9]. repeat split; try assumption; try (apply H9; assumption);
       try (apply H6; assumption).
